@@ -317,3 +317,110 @@ Proof.
   split; [apply CompressGraphOk.exts_sym_palb_sound; vm_compute; reflexivity | vm_compute; reflexivity].
 Qed.
 Print Assumptions C03_nonvacuous_compress_graph_ok.
+
+(* ==== edges = observed adjacencies, for the DIRECT pipeline model (work package e2e) ============================= *)
+(* C03_edges_are_observed_direct: for the direct pipeline model (filter_kmers with CountFilterSet on the whole reads ->
+   sort -> remove_censored_exts when thr > 1 -> any duplicate-free iteration order of the table -> compress_kmers), K >= 4,
+   reads over {A,C,G,T}: the k-mers of the graph are exactly the retained k-mers (each once) and the adjacencies the graph
+   denotes - every (K+1)-window of every node sequence plus, for every node end and every base of its extension set, the
+   (K+1)-mer formed by the end k-mer and that base, canonical when unstranded ([graph_links], Check/PipelineCheck.v) - are,
+   as a set, exactly the (K+1)-windows of the reads whose two k-mers both occur >= thr times ([observed_adjs] of
+   Spec/EdgeSpec.v = [spec_links] of Check/PipelineCheck.v).  No checker is involved: this is the composition C05
+   (filter_spec) o pruning (remove_censored_exact) o C01 (partition, steps, terminal_exts) at model level that
+   C03_edges_are_observed_partial left to the run.
+   Here the adjacency set is stated on the extension bytes of the node ends; the reading through find_edges / find_link
+   (the FULL statement above) is C03_edges_are_observed_direct_full below. *)
+From DBG Require Algo.Pipeline Check.PipelineCheck Proofs.E2eDirect Proofs.E2eCorollaries.
+
+Theorem C03_edges_are_observed_direct : forall K st thr mode (lreads : list Pipeline.lread) order g,
+  4 <= K -> Forall (fun r => wf_dna (fst r)) lreads -> NoDup order ->
+  Pipeline.direct K st thr mode 0 lreads order = Some g ->
+  Permutation.Permutation (PipelineCheck.graph_kmers K st g) (PipelineCheck.retained K st thr (map fst lreads)) /\
+  (forall w, In w (PipelineCheck.graph_links K st g) <-> In w (PipelineCheck.spec_links K st thr (map fst lreads))) /\
+  (forall w, In w (PipelineCheck.graph_links K st g) <-> In w (observed_adjs K st (N.to_nat thr) (map fst lreads))).
+Proof. exact E2eCorollaries.edges_are_observed_direct_all. Qed.
+Print Assumptions C03_edges_are_observed_direct.
+
+(* the two Layer-S adjacency specifications coincide *)
+Theorem C03_observed_adjs_spec_links : forall K st thr reads,
+  observed_adjs K st (N.to_nat thr) reads = PipelineCheck.spec_links K st thr reads.
+Proof. exact E2eCorollaries.observed_adjs_spec_links. Qed.
+Print Assumptions C03_observed_adjs_spec_links.
+
+(* the table handed to the compressor meets C01's and C03's hypotheses (announced above as "decidable but not proved
+   here"): filter_kmers + remove_censored_exts tables are tbl_ok, exts_sym and exts_sym_pal *)
+Theorem C03_direct_table_hyps : forall K st thr (lreads : list Pipeline.lread) order T,
+  4 <= K -> Forall (fun r => wf_dna (fst r)) lreads -> NoDup order ->
+  Pipeline.table_of K st thr (if (1 <? thr)%N then 1%N else 0%N) (Pipeline.whole_reads lreads) order = Some T ->
+  CompressSpec.tbl_ok GraphCheck.pay K st T /\ CompressSpec.exts_sym GraphCheck.pay st T /\
+  CompressGraphOk.exts_sym_pal GraphCheck.pay st T /\ CompressSpec.exts_closed GraphCheck.pay st T.
+Proof. exact E2eCorollaries.direct_table_hyps. Qed.
+Print Assumptions C03_direct_table_hyps.
+
+(* non-vacuity: K = 4, unstranded, threshold 2 (pruning active): ACGGTCCATG twice and CATGGTA once; the graph has the
+   7 retained k-mers and the 6 observed adjacencies between them (CATG is a palindrome) *)
+Definition C03_ex_reads : list Pipeline.lread := [([0;1;2;2;3;1;1;0;3;2], 0); ([0;1;2;2;3;1;1;0;3;2], 1); ([1;0;3;2;2;3;0], 1)]%N.
+Definition C03_ex_order : list dna := Eval vm_compute in rev (PipelineCheck.retained 4 false 2 (map fst C03_ex_reads)).
+Example C03_nonvacuous_direct :
+  Forall (fun r => wf_dna (fst r)) C03_ex_reads /\ NoDup C03_ex_order /\
+  exists g, Pipeline.direct 4 false 2 0 0 C03_ex_reads C03_ex_order = Some g /\
+    length (PipelineCheck.graph_kmers 4 false g) = 7 /\
+    length (nodup (list_eq_dec N.eq_dec) (observed_adjs 4 false 2 (map fst C03_ex_reads))) = 6 /\
+    existsb is_palindrome (PipelineCheck.graph_kmers 4 false g) = true.
+Proof.
+  split; [repeat constructor; cbv; auto|]. split.
+  - replace C03_ex_order with (rev (PipelineCheck.retained 4 false 2 (map fst C03_ex_reads))) by (vm_compute; reflexivity).
+    eapply Permutation.Permutation_NoDup; [apply Permutation.Permutation_rev | apply PipelineCheckProofs.retained_nodup].
+  - eexists. split; [vm_compute; reflexivity|]. repeat split; vm_compute; reflexivity.
+Qed.
+Print Assumptions C03_nonvacuous_direct.
+
+(* C03_compress_valid_graph: for EVERY table meeting C01's hypotheses [tbl_ok], [exts_sym], C03's [exts_sym_pal] and
+   [exts_closed] (every recorded extension leads to a key - what remove_censored_exts establishes), symmetric join: the
+   graph compress_kmers builds is a [valid_graph]: graph_ok AND every extension of every node end resolves through
+   find_link to a node end ([exts_resolvable]).  This is the validity hypothesis of C09's compress_graph.
+   Proof (Proofs/CompressValid.v): the target k-mer of an end extension lies in some node; were it not at that node's
+   facing end, its step to the inner neighbour would be a merge whose sole extension is the return extension (table
+   symmetry), so the neighbour would be the source end k-mer itself - which ends its own node. *)
+From DBG Require Proofs.CompressValid Proofs.E2eEdges.
+Theorem C03_compress_valid_graph : forall (D : Type) (reduce : D -> D -> D) (join : D -> D -> bool) (K : nat) (stranded : bool),
+  1 <= K -> (forall a b, join a b = join b a) -> forall T : Compress.table D,
+  CompressSpec.tbl_ok D K stranded T -> CompressSpec.exts_sym D stranded T -> CompressGraphOk.exts_sym_pal D stranded T ->
+  CompressSpec.exts_closed D stranded T ->
+  exists nodes, Compress.compress_kmers D reduce join stranded T = Some nodes /\ valid_graph D K stranded nodes.
+Proof. exact CompressValid.compress_valid_graph. Qed.
+Print Assumptions C03_compress_valid_graph.
+
+Theorem C03_direct_valid_graph : forall K st thr mode (lreads : list Pipeline.lread) order g,
+  4 <= K -> Forall (fun r => wf_dna (fst r)) lreads -> NoDup order ->
+  Pipeline.direct K st thr mode 0 lreads order = Some g -> valid_graph GraphCheck.pay K st g.
+Proof. exact E2eEdges.direct_valid_graph. Qed.
+Print Assumptions C03_direct_valid_graph.
+
+(* C03_edges_are_observed, FULL, for the direct pipeline model: with the edge lists find_edges reports for every node and
+   side ([model_el]: (edges_of g u Left, edges_of g u Right) per node u), the (K+1)-mers inside node sequences together with
+   one (K+1)-mer per reported edge ([edge_mer]: the source end k-mer and the first base of the target, on the strand of the
+   source) are, as a set of canonical (K+1)-mers, exactly the (K+1)-windows of the reads whose two k-mers both occur >= thr
+   times.  (thr is a number N in the pipeline model and a nat in Spec/EdgeSpec.v.) *)
+Theorem C03_edges_are_observed_direct_full : forall K st thr mode (lreads : list Pipeline.lread) order g,
+  4 <= K -> Forall (fun r => wf_dna (fst r)) lreads -> NoDup order ->
+  Pipeline.direct K st thr mode 0 lreads order = Some g ->
+  edges_are_observed K st (N.to_nat thr) (map fst lreads) (g_seqs GraphCheck.pay g) (E_list (E2eEdges.model_el K st g)).
+Proof. exact E2eEdges.edges_are_observed_direct_full. Qed.
+Print Assumptions C03_edges_are_observed_direct_full.
+
+(* in a graph of well-formed nodes whose end extensions all resolve, the adjacencies read through find_edges are those
+   read off the extension bytes *)
+Theorem C03_adjs_links : forall K st (g : list GraphCheck.node_t), wf_graph GraphCheck.pay K g -> exts_resolvable GraphCheck.pay K st g ->
+  forall w, In w (graph_adjs K st (g_seqs GraphCheck.pay g) (E_list (E2eEdges.model_el K st g))) <-> In w (PipelineCheck.graph_links K st g).
+Proof. exact E2eEdges.adjs_links. Qed.
+Print Assumptions C03_adjs_links.
+
+(* non-vacuity: on the example above the checker of C03_edges_are_observed_partial accepts the model's own edge lists *)
+Example C03_nonvacuous_direct_full :
+  exists g, Pipeline.direct 4 false 2 0 0 C03_ex_reads C03_ex_order = Some g /\
+    chk_valid_graph GraphCheck.pay 4 false g = true /\
+    chk_edges_observed 4 false 2 (map fst C03_ex_reads) (g_seqs GraphCheck.pay g) (E2eEdges.model_el 4 false g) = true /\
+    map (@length _) (map (fun p => fst p ++ snd p) (E2eEdges.model_el 4 false g)) = [1; 2].
+Proof. eexists. split; [vm_compute; reflexivity|]. repeat split; vm_compute; reflexivity. Qed.
+Print Assumptions C03_nonvacuous_direct_full.
